@@ -63,6 +63,12 @@ where
     Role: RoleType,
     PacketIdType: IsPacketId,
 {
+    /// Packet identifier held by the packet (PUBLISH QoS1/2, SUBSCRIBE, UNSUBSCRIBE): released if the
+    /// packet is refused before it reaches its send processing
+    fn packet_id_to_release(&self) -> Option<PacketIdType> {
+        None
+    }
+
     // v3.1.1 methods
     fn send_connect_v3_1_1(
         self,
@@ -287,7 +293,8 @@ where
     ) -> Vec<GenericEvent<PacketIdType>> {
         // Version check first
         if !T::check(&connection.get_protocol_version()) {
-            return vec![GenericEvent::NotifyError(MqttError::VersionMismatch)];
+            // Same refusal as send(): the error plus the release of the identifier the packet holds
+            return connection.refuse_send(self.packet_id_to_release(), MqttError::VersionMismatch);
         }
 
         trace!("Static dispatch sent: {}", self);
